@@ -373,7 +373,7 @@ class Negative(Term):
         self.term = self.term.replace_table(current_table, new_table)
 
     def get_sql(self, ctx: SqlContext) -> str:
-        term_sql = self.term.get_sql(ctx)
+        term_sql = self.term.get_sql(ctx.copy(with_alias=False))
         if isinstance(self.term, ArithmeticExpression) or term_sql.startswith("-"):
             # -(a+b) must not become -a+b, and -(-a) must not become the comment opener --a
             term_sql = "({})".format(term_sql)
@@ -1190,7 +1190,9 @@ class ArithmeticExpression(Term):
     def get_sql(self, ctx: SqlContext) -> str:
         left_op, right_op = [getattr(side, "operator", None) for side in [self.left, self.right]]
 
-        right_sql = self.right.get_sql(ctx)
+        # operands never define a name: their own aliases are not printed inside the expression
+        operand_ctx = ctx.copy(with_alias=False)
+        right_sql = self.right.get_sql(operand_ctx)
         # a-(-1) must not become a--1 (a comment opener)
         right_parens = self.right_needs_parens(self.operator, right_op) or (
             self.operator == Arithmetic.sub and right_sql.startswith("-")
@@ -1198,7 +1200,7 @@ class ArithmeticExpression(Term):
         arithmetic_sql = "{left}{operator}{right}".format(
             operator=self.operator.value,
             left=("({})" if self.left_needs_parens(self.operator, left_op) else "{}").format(
-                self.left.get_sql(ctx)
+                self.left.get_sql(operand_ctx)
             ),
             right=("({})" if right_parens else "{}").format(right_sql),
         )
